@@ -403,6 +403,10 @@ pub const REGEX_VOCAB: &[(&str, &str, &str)] = &[
     ("ab.*$", "abc", "ab\nc"),
     ("^.*a.*$", "bab", "b\nab\n"),
     ("ab", "xab", "ba"),
+    ("^\\D+$", "ab", "a1"),
+    ("\\S+", "a", " "),
+    ("\\W", "a b", "ab"),
+    ("[A-Z]", "aB", "ab"),
 ];
 
 /// A document value that should make the scalar predicate true / almost true.
